@@ -237,6 +237,14 @@ class HavocLocals(LoopSpec):
     def havoc(self, it, env):
         for name, mk in self.fresh.items():
             env[name] = mk(it)
+            v = env[name]
+            if hasattr(v, 't') and v.t.sort().name() == 'Label':      # a re-drawn uuid label: distinct from earlier draws
+                prev = getattr(it.ctx, 'uuid_labels', None)
+                if prev is None:
+                    prev = it.ctx.uuid_labels = []
+                for p in prev:
+                    it.ctx.assume(v.t != p)
+                prev.append(v.t)
 
     def inv(self, it, env, k):
         return []
